@@ -14,7 +14,7 @@ Extraction "model.ml"
   env_cut_out env_cut_off env_split_at of_points to_points pdur pstarts
   seconds_env convert convert_history metrize metrize2 metrize_steps join_tempo
   ev_eqb ev_neqb
-  d_eq d_lt d_le d_gt d_ge d_ne arith st_run st_beat st_read parse_duration parse_tempo seconds_of western_bpm qval to_ticks round_digits
+  d_eq d_lt d_le d_gt d_ge d_ne arith arith_r st_run st_beat st_read parse_duration parse_tempo seconds_of western_bpm qval to_ticks round_digits
   scale scale_sequence_to_sum accumulate_from_n cyclic_permutations find_closest_index uniqify nget nset ndel
   find_sums default_numbers default_counts chronon_to_attribute dict_to_keyword_argument dict_to_chronon lazy_run lazy_call lazy_run_x lazy_call_x
   set_parameter get_parameter_flat get_parameter_nested set_duration idur leaf_positions all_ids
